@@ -257,7 +257,8 @@ def check_body (n, r, raw, model, st):
 
 def _stack ():
   from mc.env import SwitchStack, VClock
-  return SwitchStack(dpid=1, ports=4, max_buffers=4, clock=VClock())
+  # table capacity 2 = the two distinct flows of the alphabet: re-adding an installed flow happens at capacity, a third flow never
+  return SwitchStack(dpid=1, ports=4, max_buffers=4, clock=VClock(), max_entries=2)
 
 
 def _worker (histories):
